@@ -17,14 +17,14 @@ package h264
 //@ spec func spsSane(sps *RawSPS) bool = sps != nil && sps.PicWidthInMbsMinus1 < 1024 && sps.PicHeightInMapUnitsMinus1 < 1024 && sps.FrameMbsOnlyFlag <= 1 && sps.ChromaFormatIdc <= 3 && sps.SeparateColourPlaneFlag <= 1 && (sps.SeparateColourPlaneFlag == 1 ==> sps.ChromaFormatIdc == 3) && cropUnitX(sps)*(int(sps.FrameCropLeftOffset)+int(sps.FrameCropRightOffset)) < (int(sps.PicWidthInMbsMinus1)+1)*16 && cropUnitY(sps)*(int(sps.FrameCropTopOffset)+int(sps.FrameCropBottomOffset)) < (2-int(sps.FrameMbsOnlyFlag))*(int(sps.PicHeightInMapUnitsMinus1)+1)*16 && sps.FrameCropLeftOffset < 16384 && sps.FrameCropRightOffset < 16384 && sps.FrameCropTopOffset < 16384 && sps.FrameCropBottomOffset < 16384
 
 //@ func (sps *RawSPS) Width() (w int)
-//@   requires spsSane(sps)
+//@   requires sps != nil
 //@   modifies
-//@   ensures w == (int(sps.PicWidthInMbsMinus1)+1)*16 - cropUnitX(sps)*(int(sps.FrameCropLeftOffset)+int(sps.FrameCropRightOffset))
+//@   ensures spsSane(sps) ==> w == (int(sps.PicWidthInMbsMinus1)+1)*16 - cropUnitX(sps)*(int(sps.FrameCropLeftOffset)+int(sps.FrameCropRightOffset))
 
 //@ func (sps *RawSPS) Height() (h int)
-//@   requires spsSane(sps)
+//@   requires sps != nil
 //@   modifies
-//@   ensures h == (2-int(sps.FrameMbsOnlyFlag))*(int(sps.PicHeightInMapUnitsMinus1)+1)*16 - cropUnitY(sps)*(int(sps.FrameCropTopOffset)+int(sps.FrameCropBottomOffset))
+//@   ensures spsSane(sps) ==> h == (2-int(sps.FrameMbsOnlyFlag))*(int(sps.PicHeightInMapUnitsMinus1)+1)*16 - cropUnitY(sps)*(int(sps.FrameCropTopOffset)+int(sps.FrameCropBottomOffset))
 
 //@ func (sps *RawSPS) IsFixedFrameRate() (b bool)
 //@   requires sps != nil
@@ -67,9 +67,13 @@ package h264
 //@   modifies *vui
 // high profiles carry the chroma / bit-depth / scaling-matrix block
 //@ spec func highProfile(p uint8) bool = p == 100 || p == 110 || p == 122 || p == 244 || p == 44 || p == 83 || p == 86 || p == 118
+// Decode writes only the syntax elements that are present: the fields Width / Height / FrameRate / IsFixedFrameRate read
+// unconditionally must start from their zero values, i.e. every decode goes into a zero RawSPS (a recycled one would
+// report the previous stream's cropping or frame rate for an SPS that omits them)
+//@ spec func spsZeroed(sps *RawSPS) bool = sps.FrameCropLeftOffset == 0 && sps.FrameCropRightOffset == 0 && sps.FrameCropTopOffset == 0 && sps.FrameCropBottomOffset == 0 && sps.SeparateColourPlaneFlag == 0 && sps.Vui.NumUnitsInTick == 0 && sps.Vui.TimeScale == 0 && sps.Vui.FixedFrameRateFlag == 0
 //@ func (sps *RawSPS) Decode(data []byte) (err error)
 //@   recovers
-//@   requires sps != nil
+//@   requires sps != nil && spsZeroed(sps)
 //@   modifies all()
 //@   local r *bits.Reader
 //@   local i int
@@ -87,3 +91,18 @@ package h264
 //@   ensures err == nil && old(len(data)) >= 0 ==> sps.NalUnitHeader.NalUnitType == NalSps
 //@   ensures err == nil && !highProfile(sps.ProfileIdc) ==> sps.ChromaFormatIdc == uint8(iteInt(sps.ProfileIdc == 183, 0, 1)) && sps.SeparateColourPlaneFlag == 0 && sps.BitDepthLumaMinus8 == 0 && sps.BitDepthChromaMinus8 == 0
 //@   ensures err == nil && highProfile(sps.ProfileIdc) && sps.ChromaFormatIdc != 3 ==> sps.SeparateColourPlaneFlag == 0
+
+// the stream's reported size and frame rate come from decoding its SPS into a zero RawSPS
+//@ import "github.com/cnotch/ipchub/av/codec"
+//@ func (sps *RawSPS) FrameRate() (f float64)
+//@   trusted
+//@   requires sps != nil
+//@   modifies
+//@ func MetadataIsReady(vm *codec.VideoMeta) (ok bool)
+//@   requires vm != nil
+//@   modifies all()
+//@   ensures !ok && old(vm.Width) != 0 ==> old(len(vm.Sps)) == 0 || old(len(vm.Pps)) == 0
+//@ func (sps *RawSPS) DecodeString(b64 string) (err error)
+//@   trusted
+//@   requires sps != nil && spsZeroed(sps)
+//@   modifies all()
